@@ -330,6 +330,22 @@ func (x *gg) term1(d int) *rt.Term {
 			return rt.A(x.atomText())
 		}
 	}
+	if len(x.opNames) > 0 && u(x.t, 12, "opapply") == 0 {
+		// a current operator of the generated table applied to operands that need brackets or spacing:
+		// the writer's decisions depend on the operator's name class and on what follows it
+		name := x.opNames[u(x.t, len(x.opNames), "opname2")]
+		hi := rt.C([]string{",", ";", ":-", "->", "=", "+", "-"}[u(x.t, 7, "hiop")], x.term(d-1), x.term(d-1))
+		switch u(x.t, 4, "opform") {
+		case 0:
+			return rt.C(name, hi)
+		case 1:
+			return rt.C(name, hi, x.term(d-1))
+		case 2:
+			return rt.C(name, x.term(d-1), hi)
+		default:
+			return rt.C(name, rt.C(name, x.term(d-1)))
+		}
+	}
 	switch k := u(x.t, 14, "shape"); {
 	case k < 1:
 		return x.number()
